@@ -8,6 +8,7 @@ from scipy.optimize import linprog
 from vf.core import Prop, Outcome
 from vf import detmodel
 from vf.props import c06
+from vf.quiet import quiet
 
 ELEM = ['abs', 'square', 'power', 'exp', 'softplus', 'log', 'pexp', 'plog']
 VEC = ['norm1', 'norm2', 'norminf', 'pnorm', 'sumsqr', 'quad', 'gmean', 'entropy', 'sumexp', 'sumlog', 'maxof', 'minof']
@@ -259,6 +260,11 @@ class C07(Prop):
                 return Outcome.skip('milp:' + why, labels)
             if val is None:
                 if ref is not None and getattr(m.solution, 'status', None) in (2, 3):
+                    from vf.props.c11 import highs_itself_fails
+                    with quiet():
+                        fml = m.do_math()
+                    if solver is None and highs_itself_fails(fml):
+                        return Outcome.inconclusive('HiGHS reports the compiled program infeasible with presolve and solves it without (solver defect)', labels + ['highs_presolve_failure'])
                     return Outcome.fail('milp:no_solution', 'solver reported status %s but enumeration finds optimum %.9g' % (m.solution.status, ref), labels)
                 return Outcome.skip('not_optimal', labels)
             if ref is None:
